@@ -302,6 +302,7 @@ def box_for(rng, cls):
 #   mn     : dict(cls, m_arg, n_arg, m, n)     cls 'default' = arguments omitted (m='x', n='y')
 #   b      : dict(cls, cart)  crystal Cartesian vector  |  dict(cls, uvw) lattice coordinates (Miller orientation)
 # A *history* = start orientation kind + 1..3 changes; each change alters one argument of solve()
+# ('refused' is not a change of state: the harness calls solve() with a medium the solver rejects and goes on).
 # (where the isotropic model's in-plane condition b.n = 0 cannot survive the change the Burgers
 # vector is regenerated in the same class; that is counted).
 NU_CLASSES = ['typical', 'zero', 'negative', 'high']
@@ -318,8 +319,10 @@ HIST_TEMPLATES = [
     ('identity', ('C', 'to-miller', 'box')),
     ('transform', ('burgers-negated', 'to-identity')),
     ('miller', ('mn', 'to-identity', 'burgers')),
+    ('transform', ('refused', 'burgers', 'C')),           # 'refused' = a solve() call the solver rejects (ValueError) between two good ones
+    ('miller', ('refused', 'mn')),
 ]
-HIST_CHANGES = sorted({c for _s, ch in HIST_TEMPLATES for c in ch})
+HIST_CHANGES = sorted({c for _s, ch in HIST_TEMPLATES for c in ch if c != 'refused'})
 HIST_READS = ['none', 'u', 'strain', 'stress', 'K', 'preln', 'single']
 BOX3 = [c for c in BOX_CLASSES if c != 'hexagonal4']
 _TKINDS = ['transform', 'axes-unnormalised', 'transform-list']
